@@ -119,10 +119,8 @@ def run_one(ctx, c, opts, kind, front):
     ctx.count(("double" if c.double else "single") + ":nta%d:%s:%s" % (len(c.trans_att), "front+match" if front else "refs", kind))
 
 
-def run(ctx):
-    n = 80 if ctx.quick else 1000
-    done = 0
-    tries = 0
+def batch(ctx, n):
+    done = tries = 0
     while done < n and tries < 20 * n:
         tries += 1
         b = build(ctx.rng, ctx.quick)
@@ -130,6 +128,11 @@ def run(ctx):
             continue
         run_one(ctx, *b)
         done += 1
+
+
+def run(ctx):
+    n = 80 if ctx.quick else 1000
+    core.parallel_cases(ctx, batch, [(n // 8,)] * 8, jobs=8)
 
 
 def search(ctx):
